@@ -850,6 +850,9 @@ pub fn decode_body(ver: Ver, ty: u8, flags: u8, body: &[u8], w: usize) -> Result
                 let wp = if v5 { dec_props(&mut r, Loc::Will)? } else { vec![] };
                 let topic = r.string()?;
                 let payload = r.bin()?;
+                if topic.is_empty() || !topic_name_legal(&topic) {
+                    return Err("will topic".into());
+                }
                 Some(Will { topic, payload, qos: wq, retain: wr, props: wp })
             } else {
                 None
@@ -858,6 +861,11 @@ pub fn decode_body(ver: Ver, ty: u8, flags: u8, body: &[u8], w: usize) -> Result
             let pass = if cf & 0x40 != 0 { Some(r.bin()?) } else { None };
             if !v5 && pass.is_some() && user.is_none() {
                 return Err("v3.1.1 password without user name".into());
+            }
+            // a zero-length Client Identifier needs Clean Session 1 in v3.1.1 [MQTT-3.1.3-7] (a server matter in
+            // v5.0, where the server may assign one)
+            if !v5 && client_id.is_empty() && cf & 2 == 0 {
+                return Err("v3.1.1 empty client id without clean session".into());
             }
             AP::Connect { ver, clean: cf & 2 != 0, keep_alive, client_id, will, user, pass, props }
         }
@@ -891,6 +899,17 @@ pub fn decode_body(ver: Ver, ty: u8, flags: u8, body: &[u8], w: usize) -> Result
             }
             let props = if v5 { dec_props(&mut r, Loc::Publish)? } else { vec![] };
             let payload = r.rest();
+            if !topic_name_legal(&topic) {
+                return Err("topic name".into());
+            }
+            // an empty Topic Name needs a Topic Alias (v5.0 only)
+            if topic.is_empty() && !(v5 && props.iter().any(|p| p.id == 0x23)) {
+                return Err("empty topic name".into());
+            }
+            // DUP must be 0 for QoS 0 [MQTT-3.3.1-2]
+            if qos == 0 && dup {
+                return Err("DUP with QoS 0".into());
+            }
             AP::Publish { ver, dup, qos, retain, topic, pid, props, payload }
         }
         4..=7 => {
@@ -932,6 +951,17 @@ pub fn decode_body(ver: Ver, ty: u8, flags: u8, body: &[u8], w: usize) -> Result
             while r.left() > 0 {
                 let f = r.string()?;
                 let o = r.u8()?;
+                if !filter_legal(ver, &f) {
+                    return Err("topic filter".into());
+                }
+                // Subscription Options: QoS <= 2; v3.1.1: upper six bits reserved; v5.0: bits 6-7 reserved,
+                // Retain Handling <= 2, No Local on a shared subscription is a protocol error
+                if o & 0x03 == 3 || (!v5 && o & 0xFC != 0) || (v5 && (o & 0xC0 != 0 || (o >> 4) & 0x03 == 3)) {
+                    return Err("subscription options".into());
+                }
+                if v5 && o & 0x04 != 0 && f.starts_with(b"$share/") {
+                    return Err("No Local on a shared subscription".into());
+                }
                 entries.push((f, o));
             }
             if entries.is_empty() {
@@ -965,7 +995,11 @@ pub fn decode_body(ver: Ver, ty: u8, flags: u8, body: &[u8], w: usize) -> Result
             let props = if v5 { dec_props(&mut r, Loc::Unsubscribe)? } else { vec![] };
             let mut filters = vec![];
             while r.left() > 0 {
-                filters.push(r.string()?);
+                let f = r.string()?;
+                if !filter_legal(ver, &f) {
+                    return Err("topic filter".into());
+                }
+                filters.push(f);
             }
             if filters.is_empty() {
                 return Err("no filter".into());
@@ -1023,6 +1057,12 @@ pub fn decode_body(ver: Ver, ty: u8, flags: u8, body: &[u8], w: usize) -> Result
                 }
                 // lenient: a Reason Code without Property Length is accepted like in DISCONNECT
                 let ps = if r.left() > 0 { Some(dec_props(&mut r, Loc::Auth)?) } else { None };
+                // Authentication Method is mandatory unless the packet is the bare "Success" form; Authentication
+                // Data needs the method next to it (3.15.2.2.2 / 3.15.2.2.3)
+                let has = |id: u8| ps.as_ref().map(|v: &Vec<Prop>| v.iter().any(|p| p.id == id)).unwrap_or(false);
+                if (c != 0 && !has(0x15)) || (has(0x16) && !has(0x15)) {
+                    return Err("AUTH without Authentication Method".into());
+                }
                 (Some(c), ps)
             } else {
                 (None, None)
@@ -1035,6 +1075,45 @@ pub fn decode_body(ver: Ver, ty: u8, flags: u8, body: &[u8], w: usize) -> Result
         return Err(format!("{} trailing bytes", r.left()));
     }
     Ok(p)
+}
+
+/// Topic Filter rules [MQTT-4.7.1-2/3, 4.7.3-1, 4.8.2-1/2]: non-empty, no U+0000, '#' only as the last level,
+/// '+' only as a whole level; v5.0 shared subscriptions: `$share/<name>/<filter>` with a non-empty name that
+/// contains none of '/', '+', '#', and a non-empty filter behind it
+pub fn filter_legal(ver: Ver, f: &[u8]) -> bool {
+    let Ok(s) = std::str::from_utf8(f) else { return false };
+    if s.is_empty() || s.contains('\u{0}') {
+        return false;
+    }
+    let mut rest = s;
+    if ver == Ver::V5 && s.starts_with("$share/") {
+        let after = &s[7..];
+        let Some(pos) = after.find('/') else { return false };
+        let name = &after[..pos];
+        if name.is_empty() || name.contains('+') || name.contains('#') {
+            return false;
+        }
+        rest = &after[pos + 1..];
+        if rest.is_empty() {
+            return false;
+        }
+    }
+    let levels: Vec<&str> = rest.split('/').collect();
+    for (i, l) in levels.iter().enumerate() {
+        if l.contains('#') && (*l != "#" || i + 1 != levels.len()) {
+            return false;
+        }
+        if l.contains('+') && *l != "+" {
+            return false;
+        }
+    }
+    true
+}
+
+/// Topic Name rules [MQTT-4.7.1-1, 4.7.3-1]: no wildcard characters, no U+0000 (emptiness is judged by the caller)
+pub fn topic_name_legal(t: &[u8]) -> bool {
+    let Ok(s) = std::str::from_utf8(t) else { return false };
+    !s.contains('#') && !s.contains('+') && !s.contains('\u{0}')
 }
 
 /// Split a stream into frames the way the specification prescribes (fixed header, Remaining Length
